@@ -401,7 +401,28 @@ func runC06(c *Ctx, w *World, r *Report) {
 		fav := w.FA(vs)
 		badV := ""
 		nret := 0
+		// the same thing said with the standard library: string(bytes.TrimRight(buf, "\x00")) (cutset = the NUL byte only)
+		stdForm := len(returnsOf(vs)) > 0
 		for _, ret := range returnsOf(vs) {
+			okStd := false
+			if cv, ok := ret.Results[0].(*ssa.Convert); ok {
+				if call, ok := cv.X.(*ssa.Call); ok && calleeName(call.Common()) == "bytes.TrimRight" && len(call.Common().Args) == 2 && call.Common().Args[0] == ssa.Value(vs.Params[0]) {
+					if c, ok := call.Common().Args[1].(*ssa.Const); ok && c.Value != nil && c.Value.Kind() == constant.String && constant.StringVal(c.Value) == "\x00" {
+						okStd = true
+					}
+				}
+			}
+			if !okStd {
+				stdForm = false
+			}
+		}
+		if stdForm {
+			r.OK("R-VERSION", "pbcmpl.verStr", w.Pos(vs.Pos()), "string(bytes.TrimRight(buf, NUL)): strips trailing NUL bytes only")
+		}
+		for _, ret := range returnsOf(vs) {
+			if stdForm {
+				break
+			}
 			nret++
 			cv, ok := ret.Results[0].(*ssa.Convert)
 			if !ok {
@@ -463,7 +484,9 @@ func runC06(c *Ctx, w *World, r *Report) {
 				badV = fmt.Sprintf("the scan examines buf[i] only for i in %s: it must reach index 0 (and not go below)", bd)
 			}
 		})
-		r.Check(badV == "" && nret > 0, "R-VERSION", "pbcmpl.verStr", w.Pos(vs.Pos()), badV, "string(buf[:i+1]), i scanning down from len(buf)-1 while buf[i]==0")
+		if !stdForm {
+			r.Check(badV == "" && nret > 0, "R-VERSION", "pbcmpl.verStr", w.Pos(vs.Pos()), badV, "string(buf[:i+1]), i scanning down from len(buf)-1 while buf[i]==0")
+		}
 	}
 	// ---- R-EXACT
 	{
